@@ -19,7 +19,7 @@ FAIL = {
     'C19': ('member', 'panic'),
     'C15': ('models', 'illformed', 'panic'),
     'C16': ('models', 'illformed', 'panic'),
-    'C17': ('illformed', 'panic'),
+    'C17': ('hints', 'illformed', 'panic'),
     'C18': ('output', 'panic'),
     'C14': ('nodes', 'edges', 'readback', 'graph', 'panic'),
     'C13': ('history', 'handle', 'sharing', 'result', 'no-result', 'shape'),
